@@ -1510,6 +1510,14 @@ impl<'a, Octs: Octets + ?Sized> MessageTsig<'a, Octs> {
             // If it's None, then it's some other record type, and we just
             // continue.
             if let Some(record) = record {
+                // RFC 8945, section 4.2: CLASS MUST be ANY and TTL MUST be
+                // 0. Both are part of the digest (section 4.3.3) where we
+                // use these fixed values, so a record that carries anything
+                // else must not be accepted.
+                if record.class() != Class::ANY || !record.ttl().is_zero() {
+                    return Err(TsigError::Invalid);
+                }
+
                 // We got a valid TSIG, now assert that it's the last record:
                 if section.next().is_some() {
                     return Err(TsigError::Position);
